@@ -169,6 +169,12 @@ def run_check(run, tier):
         run.bounded.append({'what': 'native search: all interleavings of small two-thread programs (refute mode)', 'tried': out.get('tried'),
                             'bound': out.get('bound'), 'found': bool(out.get('found'))})
         found = out.get('found')
+        if not found and run.pending_failures:
+            # the same failure may show on a single merged stream against the pairing specification
+            out2 = native({'kind': 'pairing_search', 'depth': 4, 'seed': run.seed, 'budget': 40000}, timeout=900)
+            run.bounded.append({'what': 'native search of event streams against the pairing specification (refute mode)', 'tried': out2.get('tried'),
+                                'bound': out2.get('bound'), 'found': bool(out2.get('found'))})
+            found = out2.get('found')
         if found and not run.pending_failures:
             run.add('C05/bounded-search', 'refuted', 'native bounded search', 0, 'pykdebugparser.traces_parser:TracesParser.feed')
             run.pending_failures.append(('C05/bounded-search', 'refuted', 'native search'))
